@@ -1,16 +1,366 @@
 import Driver.Util
-/-! Engine `rt`: line protocol (stub — filled in by the owner of this engine). -/
+import ActixNet.Model.Rt
+/-!
+Engine `rt` (C09, C10): membership tie for `actix-rt` on real threads.
+
+The harness (harness/src/bin/rt.rs) builds a scenario line by line, runs it against the real
+`System`/`Arbiter` and rewrites `go …` into `observe … || <observed log>`.  For `observe`, this
+driver builds a *witness schedule* from the scenario and the observed choice points (which code won
+a race, which prefix of the tasks started, from which command on `spawn` reported false), **runs
+the model `ActixNet.Rt.step` on it** and prints the normalised verdict computed from the model's
+final state — iff that equals the verdict normalised from the observed log; otherwise
+`not-a-model-behaviour: …`.  Since the C09/C10 theorems hold for every schedule of the model, a log
+that violates a property can never be reproduced.
+
+The scenario grammar and validity rules mirror `feed` in rt.rs exactly (`bad-op` on both sides).
+-/
 namespace Driver.Rt
-open Driver
+open Driver ActixNet.Rt
+
+inductive C10Cmd where
+  | spawn (arb task : Nat)
+  | stop (arb : Nat)
+  | wait (task : Nat)
+  deriving Repr, Inhabited
 
 structure State where
-  dummy : Nat := 0
+  proto : Nat := 0
+  done : Bool := false
+  kinds : List String := []
+  /-- origin, code, seq -/
+  stops : List (String × Int × Bool) := []
+  narb : Nat := 0
+  cmds : List C10Cmd := []
+  ntask : Nat := 0
+  taskArb : List Nat := []
+  stopped : List Bool := []
+  deriving Inhabited
 
 def init : State := {}
 
+/-! ### parsing (same grammar as rt.rs) -/
+
+def nat? (s : String) : Option Nat :=
+  if s.length = 0 ∨ s.length > 6 ∨ !s.all Char.isDigit then none else s.toNat?
+
+def int? (s : String) : Option Int :=
+  match s.toList with
+  | '-' :: r => (nat? (String.ofList r)).map fun n => -(Int.ofNat n)
+  | _ => (nat? s).map Int.ofNat
+
+def stripPre (p s : String) : Option String :=
+  let pl := p.toList
+  let sl := s.toList
+  if sl.take pl.length == pl then some (String.ofList (sl.drop pl.length)) else none
+
+def prefixedNat? (p s : String) : Option Nat := (stripPre p s).bind nat?
+
+def viaOk (s : String) : Bool := s == "own" || s == "h1" || s == "h2"
+def kindOk (s : String) : Bool :=
+  ["fn", "fut", "pend", "yield", "sleep", "panic", "fnpanic"].contains s
+
+def showInt (i : Int) : String := if i < 0 then "-" ++ toString i.natAbs else toString i.natAbs
+
+/-- value of `key=` in a log -/
+def field (ws : List String) (key : String) : Option String :=
+  ws.findSome? fun w => stripPre (key ++ "=") w
+
+def commaList (s : String) : List String := if s == "-" then [] else s.splitOn ","
+
+/-! ### running the model -/
+
+def rep (n : Nat) (a : Act) : List Act := List.replicate n a
+
+/-- `send`, returning the value the call returns in the model -/
+def doSend (s : ActixNet.Rt.State) (i : Nat) (c : Cmd) : ActixNet.Rt.State × Bool :=
+  let s' := step s (.send i c)
+  (s', s'.rets.getLast? == some true && s'.rets.length == s.rets.length + 1)
+
+def countTrue (l : List Bool) : Nat := (l.filter id).length
+
+/-! ### C09 -/
+
+/-- witness schedule for a C09 scenario with the stops issued in the given order -/
+def runC09 (kinds : List String) (stops : List (String × Int)) (variant : Nat) :
+    ActixNet.Rt.State × List Bool × List Bool :=
+  let n := kinds.length
+  let idx := List.range n
+  -- creation: guard task, per-kind set-up
+  let (s, early) := idx.foldl (fun (acc : ActixNet.Rt.State × List Bool) i =>
+      let (s, early) := acc
+      let s := step s (.newArb i)
+      let (s, _) := doSend s i (.exec (9000 + i))
+      match kinds[i]? with
+      | some "early" =>
+        let (s, r) := doSend s i .stop
+        -- even variants: the early arbiter winds down and deregisters before the Exit
+        let s := if variant % 2 == 0 then run s ([.runner i, .runner i, .close i, .fin i]) else s
+        (s, early ++ [r])
+      | some "busy" =>
+        let (s, _) := doSend s i (.exec (8000 + i))
+        (run s [.runner i, .runner i, .task i, .task i], early)
+      | _ => (s, early)) (ActixNet.Rt.init, [])
+  let s := run s (rep (2 * n + 2) .ctrl)
+  -- the stops, in the chosen queue order
+  let s := stops.zipIdx.foldl (fun (s : ActixNet.Rt.State) (x : (String × Int) × Nat) =>
+      let ((o, c), k) := x
+      match prefixedNat? "arb:" o with
+      | some a =>
+        let (s, _) := doSend s a (.exec (7000 + k))
+        let s := run s (rep 4 (.runner a) ++ rep 4 (.task a))
+        step s (.sysSend c)
+      | none => step s (.sysSend c)) s
+  let s := run s (rep (2 * n + 4) .ctrl)
+  -- every arbiter drains its channel, closes, deregisters; the controller handles that too
+  let s := idx.foldl (fun (s : ActixNet.Rt.State) i => run s (rep 8 (.runner i) ++ [.close i, .fin i])) s
+  let s := run s (rep (n + 1) .ctrl)
+  let (s, post) := idx.foldl (fun (acc : ActixNet.Rt.State × List Bool) i =>
+      let (s, r) := doSend acc.1 i (.exec (6000 + i))
+      (s, acc.2 ++ [r])) (s, [])
+  (s, early, post)
+
+def verdictC09 (kinds : List String) (modeRun : Bool) (s : ActixNet.Rt.State) (early post : List Bool) : String :=
+  let n := kinds.length
+  let idx := List.range n
+  let code := match runWithCode s with | some c => showInt c | none => "hang"
+  let res := if !modeRun then "-" else match runResult s with
+    | some .ok => "ok" | some (.err _) => "err" | none => "hang"
+  let joinable := idx.filter fun i => kinds[i]? != some "dropped"
+  let joined := joinable.filter fun i => joinReturns s i
+  let ended := idx.filter fun i => (s.arbs i).ended
+  s!"code={code} res={res} joins={joined.length}/{joinable.length} ended={ended.length}/{n} early={countTrue early}/{early.length} post={countTrue post}/{n}"
+
+/-- the harness's normalisation of an observed C09 log -/
+def observedC09 (kinds : List String) (log : List String) : Option String := do
+  let code ← field log "code"
+  let res ← field log "res"
+  let joins := commaList (← field log "joins")
+  let ended := commaList (← field log "ended")
+  let early := commaList (← field log "early")
+  let post := commaList (← field log "post")
+  let n := kinds.length
+  let joinable := (joins.filter (· != "-")).length
+  some s!"code={code} res={res} joins={(joins.filter (· == "ok")).length}/{joinable} ended={(ended.filter (· == "1")).length}/{n} early={(early.filter (· == "1")).length}/{early.length} post={(post.filter (· == "1")).length}/{n}"
+
+def observeC09 (st : State) (modeRun : Bool) (j : Nat) (log : List String) : String :=
+  let stops := st.stops.map fun (o, c, _) => (o, c)
+  let orders : List (List (String × Int)) :=
+    match st.stops with
+    | [_, (_, _, false)] => [stops, stops.reverse]
+    | _ => [stops]
+  let cands := orders.map fun o =>
+    let (s, early, post) := runC09 st.kinds o j
+    verdictC09 st.kinds modeRun s early post
+  match observedC09 st.kinds log with
+  | none => "not-a-model-behaviour: unreadable log"
+  | some obs =>
+    if cands.contains obs then obs
+    else "not-a-model-behaviour: observed [" ++ obs ++ "] model allows [" ++ " | ".intercalate cands ++ "]"
+
+/-! ### C10 -/
+
+/-- number of commands runner must receive so that `k` executes have been received (never past a stop) -/
+def recvCount : List Cmd → Nat → Nat
+  | [], _ => 0
+  | _, 0 => 0
+  | .stop :: _, _ => 0
+  | .exec _ :: r, k + 1 => 1 + recvCount r k
+
+/-- arbiter `a` runs to its end: receives so that `k` tasks are spawned, starts them, drains, closes -/
+def block (s : ActixNet.Rt.State) (a k : Nat) : ActixNet.Rt.State :=
+  let sent := (s.arbs a).sent
+  let m := recvCount sent k
+  run s (rep m (.runner a) ++ rep k (.task a) ++ rep (sent.length + 1) (.runner a) ++ [.close a])
+
+def preCount (cmds : List C10Cmd) (a : Nat) : Nat :=
+  let rec go : List C10Cmd → Nat → Nat
+    | [], n => n
+    | .spawn b _ :: r, n => if b = a then go r (n + 1) else go r n
+    | .stop b :: r, n => if b = a then n else go r n
+    | .wait _ :: r, n => go r n
+  go cmds 0
+
+structure W10 where
+  s : ActixNet.Rt.State
+  closed : List Nat := []
+  rets : List Bool := []
+
+def runC10 (narb : Nat) (cmds : List C10Cmd) (obsRets : List Bool) (ks : List Nat) : ActixNet.Rt.State × List Bool × List Bool :=
+  let idx := List.range narb
+  let s0 := run (run ActixNet.Rt.init (idx.map .newArb)) (rep narb .ctrl)
+  let closeIf (w : W10) (a : Nat) : W10 :=
+    if w.closed.contains a then w else { w with s := block w.s a (ks.getD a 0), closed := a :: w.closed }
+  let (w, _) := cmds.foldl (fun (acc : W10 × List Bool) c =>
+      let (w, obs) := acc
+      match c with
+      | .wait _ => (w, obs)
+      | .spawn a t =>
+        let w := if obs.head? == some false then closeIf w a else w
+        let (s, r) := doSend w.s a (.exec t)
+        ({ w with s := s, rets := w.rets ++ [r] }, obs.drop 1)
+      | .stop a =>
+        let w := if obs.head? == some false then closeIf w a else w
+        let (s, r) := doSend w.s a .stop
+        ({ w with s := s, rets := w.rets ++ [r] }, obs.drop 1)) (({ s := s0 } : W10), obsRets)
+  let w := idx.foldl closeIf w
+  let s := run w.s (idx.map .fin ++ rep narb .ctrl)
+  let (s, post) := idx.foldl (fun (acc : ActixNet.Rt.State × List Bool) a =>
+      let (s, r1) := doSend acc.1 a (.exec 5000)
+      let (s, r2) := doSend s a .stop
+      (s, acc.2 ++ [r1, r2])) (s, [])
+  (s, w.rets, post)
+
+def bits (l : List Bool) : String :=
+  if l.isEmpty then "-" else String.ofList (l.map fun b => if b then '1' else '0')
+
+def waitsOf (cmds : List C10Cmd) : List Nat :=
+  cmds.filterMap fun c => match c with | .wait t => some t | _ => none
+
+def verdictC10 (st : State) (s : ActixNet.Rt.State) (rets post : List Bool) : String :=
+  let idx := List.range st.narb
+  let per := idx.map fun a => s!"a{a}:started={((s.arbs a).started).length}/{preCount st.cmds a}"
+  let ws := waitsOf st.cmds
+  let wok := ws.filter fun t => (s.arbs (st.taskArb.getD t 0)).started.contains t
+  let joined := idx.filter fun a => joinReturns s a
+  " ".intercalate per ++
+    s!" rets={bits rets} waits={wok.length}/{ws.length} joins={joined.length}/{st.narb} post={countTrue post}/{2 * st.narb} ids=ok once=ok late=0"
+
+/-- `a0:t3` -/
+def parseStart (w : String) : Option (Nat × Nat) :=
+  match w.splitOn ":" with
+  | [a, t] => match prefixedNat? "a" a, prefixedNat? "t" t with
+    | some a, some t => some (a, t)
+    | _, _ => none
+  | _ => none
+
+def observedC10 (st : State) (log : List String) : Option (String × List Bool × List (Nat × Nat)) := do
+  let retsS ← field log "rets"
+  let rets := if retsS == "-" then [] else retsS.toList.map (· == '1')
+  let starts ← (commaList (← field log "starts")).mapM parseStart
+  let waits := commaList (← field log "waits")
+  let joins := commaList (← field log "joins")
+  let post := (commaList (← field log "post")).flatMap fun p => p.toList
+  let ids ← field log "ids"
+  let once ← field log "once"
+  let late ← field log "late"
+  let idx := List.range st.narb
+  let per := idx.map fun a => s!"a{a}:started={(starts.filter (·.1 == a)).length}/{preCount st.cmds a}"
+  let wok := waits.filter fun w => (w.splitOn ":").getLast? == some "1"
+  let v := " ".intercalate per ++
+    s!" rets={bits rets} waits={wok.length}/{waits.length} joins={(joins.filter (· == "ok")).length}/{st.narb} post={(post.filter (· == '1')).length}/{2 * st.narb} ids={ids} once={if once == "1" then "ok" else "bad"} late={late}"
+  some (v, rets, starts)
+
+def observeC10 (st : State) (log : List String) : String :=
+  match observedC10 st log with
+  | none => "not-a-model-behaviour: unreadable log"
+  | some (obs, rets, starts) =>
+    let idx := List.range st.narb
+    let ks := idx.map fun a => (starts.filter (·.1 == a)).length
+    let (s, mrets, post) := runC10 st.narb st.cmds rets ks
+    let v := verdictC10 st s mrets post
+    let sameOrder := idx.all fun a =>
+      (s.arbs a).started == (starts.filter (·.1 == a)).map (·.2)
+    if v == obs && sameOrder then v
+    else if v == obs then
+      "not-a-model-behaviour: start order " ++ ",".intercalate (starts.map fun (a, t) => s!"a{a}:t{t}") ++
+        " but the model starts " ++ " ".intercalate (idx.map fun a => s!"a{a}:{(s.arbs a).started}")
+    else "not-a-model-behaviour: observed [" ++ obs ++ "] model allows [" ++ v ++ "]"
+
+def identC10 (narb : Nat) : String :=
+  let idx := List.range narb
+  let s := run ActixNet.Rt.init (idx.map .newArb)
+  -- parent task; the child is sent through `Arbiter::current()` = the handle of the thread it runs on
+  let s := idx.foldl (fun s a =>
+    run s [.send a (.exec 0), .runner a, .task a, .send a (.exec 1), .runner a, .task a]) s
+  let ok := idx.all fun a => (s.arbs a).started == [0, 1]
+  let s := idx.foldl (fun s a => run s [.send a .stop, .runner a, .close a, .fin a]) s
+  let joined := idx.filter fun a => joinReturns s a
+  s!"ident={if ok then "ok" else "bad"} n={narb} joins={joined.length}/{narb}"
+
+/-! ### the line protocol -/
+
+def splitObserve (ws : List String) : List String × List String :=
+  let head := ws.takeWhile (· != "||")
+  (head, (ws.drop (head.length + 1)))
+
 def step (st : State) (line : String) : State × String :=
-  match words line with
-  | "case" :: _ => (init, "ok")
-  | _ => (st, "bad-op")
+  let ws := words line
+  match ws with
+  | "case" :: rest =>
+    let proto := if rest[1]? == some "c09" then 9 else if rest[1]? == some "c10" then 10 else 0
+    ({ proto := proto }, "ok")
+  | _ =>
+  if st.done then (st, "bad-op") else
+  -- `go …` (no log available: nothing to check) is answered like the harness would only by accident;
+  -- the orchestrator always sends the rewritten `observe … || log` line
+  let (ws, log) := match ws with
+    | "observe" :: r => let (h, l) := splitObserve r; ("go" :: h, l)
+    | _ => (ws, [])
+  match st.proto, ws with
+  | 9, ["arb", k] =>
+    if ["early", "dropped", "running", "busy"].contains k && st.kinds.length < 3 && st.stops.isEmpty then
+      ({ st with kinds := st.kinds ++ [k] }, s!"ok a{st.kinds.length}")
+    else (st, "bad-op")
+  | 9, "stop" :: o :: c :: rest =>
+    let originOk := o == "sys-pre" || o == "sys-task" || o == "foreign" ||
+      (match prefixedNat? "arb:" o with
+       | some k => k < st.kinds.length && st.kinds[k]? != some "early"
+       | none => false)
+    let seq? : Option Bool := match rest with
+      | [] => some true | ["seq"] => some true | ["race"] => some false | _ => none
+    match originOk, int? c, seq? with
+    | true, some code, some seq =>
+      if st.stops.length ≥ 2 then (st, "bad-op")
+      else if st.stops.length == 1 && seq && o == "sys-pre" && (st.stops.head?.map (·.1)) == some "sys-task" then
+        (st, "bad-op")
+      else ({ st with stops := st.stops ++ [(o, code, seq)] }, "ok")
+    | _, _, _ => (st, "bad-op")
+  | 9, ["go", m, j] =>
+    match (m == "run" || m == "code"), prefixedNat? "j=" j with
+    | true, some j =>
+      if st.stops.isEmpty then (st, "bad-op")
+      else ({ st with done := true }, observeC09 st (m == "run") j log)
+    | _, _ => (st, "bad-op")
+  | 10, ["arb"] =>
+    if st.narb ≥ 2 || !st.cmds.isEmpty then (st, "bad-op")
+    else ({ st with narb := st.narb + 1, stopped := st.stopped ++ [false] }, s!"ok a{st.narb}")
+  | 10, ["spawn", a, via, kind] =>
+    match nat? a, viaOk via, kindOk kind with
+    | some a, true, true =>
+      if a ≥ st.narb || st.cmds.length ≥ 24 then (st, "bad-op")
+      else ({ st with cmds := st.cmds ++ [.spawn a st.ntask], ntask := st.ntask + 1,
+                      taskArb := st.taskArb ++ [a] }, s!"ok t{st.ntask}")
+    | _, _, _ => (st, "bad-op")
+  | 10, ["stop", a, via] =>
+    match nat? a, viaOk via with
+    | some a, true =>
+      if a ≥ st.narb || st.cmds.length ≥ 24 then (st, "bad-op")
+      else ({ st with cmds := st.cmds ++ [.stop a], stopped := st.stopped.set a true }, "ok")
+    | _, _ => (st, "bad-op")
+  | 10, ["wait", t] =>
+    match prefixedNat? "t" t with
+    | some t =>
+      if t ≥ st.ntask || st.stopped.getD (st.taskArb.getD t 0) true || st.cmds.length ≥ 24 then (st, "bad-op")
+      else ({ st with cmds := st.cmds ++ [.wait t] }, "ok")
+    | none => (st, "bad-op")
+  | 10, ["go", j] =>
+    match prefixedNat? "j=" j with
+    | some _ =>
+      if st.narb == 0 || st.stopped.any (!·) then (st, "bad-op")
+      else ({ st with done := true }, observeC10 st log)
+    | none => (st, "bad-op")
+  | 10, ["ident"] =>
+    if st.narb == 0 || !st.cmds.isEmpty then (st, "bad-op")
+    else ({ st with done := true }, identC10 st.narb)
+  | 10, ["blockon", v, p, x] =>
+    match nat? p, int? x with
+    | some p, some x =>
+      if !(v == "rt" || v == "sys" || v == "spawn") || p > 1000 then (st, "bad-op")
+      else
+        -- `spawn`: the outer future additionally waits for the JoinHandle of the spawned one
+        let f : Fut Int := { pend := if v == "spawn" then p + 1 else p, out := x }
+        (st, match blockOn f with | some o => s!"out={showInt o}" | none => "hang")
+    | _, _ => (st, "bad-op")
+  | _, _ => (st, "bad-op")
 
 end Driver.Rt
